@@ -89,7 +89,7 @@ func (w *World) ResolveSpecFunc(sp *FuncSpec) *ssa.Function {
 type UnitOpts struct {
 	CheckLocks  bool
 	CheckFrames bool
-	NoOverflow  bool
+	Overflow    bool // emit arith:ovf obligations for signed arithmetic (default: ints are mathematical, A-INT)
 }
 
 // GenerateUnit runs the VC generator for one contract.
@@ -106,8 +106,10 @@ func GenerateUnit(w *World, sp *FuncSpec, opts UnitOpts) (res *UnitResult) {
 	x.unitName = res.Name
 	x.checkLocks = opts.CheckLocks
 	x.checkFrames = opts.CheckFrames
-	x.noOverflow = opts.NoOverflow
+	x.noOverflow = !opts.Overflow
 	x.loopWrites = map[string]map[string]bool{}
+	x.loopAddrs = map[string]map[string]map[uint64]bool{}
+	x.loopThreshold = map[string]int{}
 	res.Exec = x
 	defer func() {
 		res.GenSecs = time.Since(start).Seconds()
@@ -133,6 +135,11 @@ func GenerateUnit(w *World, sp *FuncSpec, opts UnitOpts) (res *UnitResult) {
 		x.reset()
 	}
 	x.runUnit()
+	if os.Getenv("GOVC_DEBUG") != "" {
+		for k, m := range x.loopWrites {
+			fmt.Println("loop", k, "writes:", sortedKeys(m))
+		}
+	}
 	res.Obligs = x.obligs
 	res.Notes = x.notes
 	res.Loops = x.loopsSeen
@@ -235,6 +242,7 @@ func (x *Exec) runUnit() {
 	for _, e := range sp.Ensures {
 		x.curSite = ""
 		var parts []*Term
+		var later []*Term
 		for _, r := range x.unitRets {
 			if isFalse(r.st.PC) {
 				continue
@@ -247,12 +255,22 @@ func (x *Exec) runUnit() {
 				}
 			}
 			t := x.evalBool(e.E, penv)
-			g := c.Implies(r.st.PC, t)
-			if !isTrue(g) {
-				parts = append(parts, g)
+			// a conjunction is proved conjunct by conjunct (smaller queries, same meaning)
+			for _, cj := range conjuncts(t) {
+				g := c.Implies(r.st.PC, cj)
+				if !isTrue(g) {
+					parts = append(parts, g)
+				}
+			}
+			later = append(later, c.Implies(r.st.PC, t))
+		}
+		o := x.obligeParts("post", e.Label, "", e.Src, parts)
+		// assert-then-assume: later clauses of the same contract may use this one
+		if o != nil {
+			for _, t := range later {
+				x.assumes = append(x.assumes, assumption{T: t, From: o})
 			}
 		}
-		x.obligeParts("post", e.Label, "", e.Src, parts)
 	}
 	// replay bindings
 	x.replayTerms = nil
@@ -453,4 +471,51 @@ func writeFailingScript(dir string, u *UnitResult, o *Oblig) string {
 
 func sortObligs(os []*Oblig) {
 	sort.SliceStable(os, func(i, j int) bool { return os[i].Name < os[j].Name })
+}
+
+func conjuncts(t *Term) []*Term {
+	if t.op == "and" && len(t.vars) == 0 {
+		var out []*Term
+		for _, a := range t.args {
+			out = append(out, conjuncts(a)...)
+		}
+		return out
+	}
+	return []*Term{t}
+}
+
+// GenerateLemma: a stand-alone lemma (no heap, no code): its body, universally
+// quantified over its integer/boolean variables, is one obligation.
+func GenerateLemma(w *World, lm *LemmaSpec) (res *UnitResult) {
+	res = &UnitResult{Key: "lemma:" + lm.Name, Name: "lemma:" + lm.Name}
+	x := &Exec{W: w, C: NewCtx(), Sh: w.shapes()}
+	x.reset()
+	x.unitName = res.Name
+	x.loopWrites = map[string]map[string]bool{}
+	x.loopAddrs = map[string]map[string]map[uint64]bool{}
+	x.loopThreshold = map[string]int{}
+	x.globalIDs = map[string]int{}
+	res.Exec = x
+	defer func() {
+		if r := recover(); r != nil {
+			res.Err = fmt.Sprintf("lemma %s: %v", lm.Name, r)
+		}
+	}()
+	st := &State{PC: x.C.True(), Heap: map[string]*Term{}, Cells: map[string]Val{}, Alloc: x.C.Const("alloc0", SInt)}
+	x.entry = st
+	env := &SpecEnv{X: x, Vars: map[string]SV{}, Cur: st, Old: st}
+	if lm.Pkg != "" {
+		env.Pkg = w.SSAPkgs[lm.Pkg]
+	}
+	for _, v := range lm.Vars {
+		if v.Type == "bool" {
+			env.Vars[v.Name] = SV{VBool{x.C.Const("lv!"+v.Name, SBool)}, tBool}
+		} else {
+			env.Vars[v.Name] = SV{VInt{x.C.Const("lv!"+v.Name, SInt)}, tInt}
+		}
+	}
+	t := env.evalBool(lm.Body)
+	x.oblige(st, "lemma", lm.Name, "", lm.Src, t)
+	res.Obligs = x.obligs
+	return
 }
